@@ -159,6 +159,30 @@ def evaluate(case):
         else:
             colored = None
         res = printer(value, no_color=True)
+        for ob in case.get("observe") or []:
+            # looking at the result object (what a console echo, a debugger, a log statement or a caller that builds a
+            # larger text out of it does) before its text is taken does not change that text
+            if ob == "repr":
+                repr(res)
+            elif ob == "len":
+                len(res)
+            elif ob == "eq":
+                res == res      # noqa
+            elif ob == "add":
+                (res + " tail") + " more"
+            elif ob == "radd":
+                "head " + res
+            elif ob == "copy_extended":
+                c = res.get_ch_text()
+                c += " tail"
+            elif ob == "slice":
+                x = res[0:]
+                x += " tail"
+            elif ob == "format":
+                format(res, "<3")
+            elif ob == "fixed_len":
+                res.fixed_len(len(res) + 2)        # (of exact length it may be the text itself: C08 ASSUMPTIONS; not extended)
+            info.add("result_object_observed_before_use")
         text = str(res)
         lines = [ln.plain_text() for ln in printer(value, no_color=True)]
         # the same, but every line object is kept and only looked at after the iteration is over
@@ -322,7 +346,10 @@ def st_case():
         return st.one_of(st_value(mode), st_value(mode), st_threshold(mode), st_threshold(mode),
                          st_wraplist(mode), st_repeated(mode)).flatmap(
             lambda v: st.booleans().map(lambda sh: {"mode": mode, "value": v, "share": sh}).flatmap(
-                lambda c: st.sampled_from([None, None, 0, 1, 2, 3]).map(lambda a: dict(c, abandon=a))))
+                lambda c: st.sampled_from([None, None, 0, 1, 2, 3]).map(lambda a: dict(c, abandon=a))).flatmap(
+                lambda c: (st.just([]) | st.just([]) | st.lists(st.sampled_from(
+                    ["repr", "len", "eq", "add", "radd", "copy_extended", "slice", "format", "fixed_len"]), min_size=1, max_size=3)
+                ).map(lambda o: dict(c, observe=o))))
     return st.sampled_from(["json", "py"]).flatmap(for_mode)
 
 
